@@ -24,7 +24,7 @@ Clauses(e) ==
     NoFlattenBeforeJoin |-> /\ Cardinality(Returns(e)) = 1
                             /\ \A r \in Returns(e) : \A p \in DOMAIN e.log : e.log[p][1] # "return" => p < r,
     EqualsSerial |-> /\ e.data = e.sdata /\ e.rows = e.srows /\ e.cols = e.scols /\ e.shp = e.sshp
-                     /\ Len(e.data) = e.NU * e.NV * (Len(e.srows) \div (e.NU * e.NV)),
+                     /\ Len(e.data) = (1 + e.cplx) * e.NU * e.NV * (Len(e.srows) \div (e.NU * e.NV)),   \* complex: re and im per entry
     \* operand arrays bit-identical before/after, and every kernel invocation saw the same parameter dictionary
     SharedInputsUnchanged |-> /\ e.before = e.after
                               /\ \A p \in {r \in DOMAIN e.log : e.log[r][1] # "return"} :
